@@ -25,6 +25,8 @@ def replay(case):
     import scikit_tt.solvers.ode as ode
     from scikit_tt.tensor_train import TT
     cfg, isl = case['cfg'], case['isl']
+    if cfg.get('weak'):
+        return replay_weak(ode, TT, cfg, isl)
     dims = list(cfg['dims'])
     d = len(dims)
     N = int(np.prod(dims))
@@ -128,6 +130,37 @@ def replay(case):
     if np.max(np.abs(contract(H.cores).reshape(N, N) - Hsnap)) > 1e-9 * max(1.0, float(np.max(np.abs(Hsnap)))) or \
             np.max(np.abs(vec(x0) - xsnap)) > 1e-9:
         out.append(('operand_changed', 'the operator or the initial state was modified'))
+    return out
+
+
+def replay_weak(ode, TT, cfg, isl):
+    """maximal ranks, Schmidt values ~1e-7, non-entangling H: with the default threshold 1e-12 nothing may be cut"""
+    dims = list(cfg['dims'])
+    N = int(np.prod(dims))
+    H = TT(core_arrays(isl['H']))
+    x0 = TT(core_arrays(isl['x0']))
+    x0 = x0.ortho_right()
+    x0 = (1.0 / x0.norm()) * x0
+    Hd = contract(H.cores).reshape(N, N)
+    x0d = vec(x0)
+    h = 2.0 ** (-cfg['e'])
+    n = cfg['steps']
+    U = sl.expm(-1j * h * Hd)
+    out = []
+    for name, f in (('tdvp2site', lambda: ode.tdvp2site(H, x0, h, n, threshold=1e-12, max_rank=64)),
+                    ('tdvp1site', lambda: ode.tdvp1site(H, x0, h, n))):
+        try:
+            sol = f()
+            want = x0d.astype(complex)
+            for k in range(1, n + 1):
+                want = U @ want
+                err = np.linalg.norm(vec(sol[k]) - want)
+                if err > 1e-9:
+                    out.append(('%s:exact:weak' % name, 'maximal ranks, weakly entangled state, threshold 1e-12: state %d differs from '
+                                'exp(-i k h H) x0 by %.3e (ranks %r -> %r)' % (k, err, x0.ranks, sol[k].ranks)))
+                    break
+        except Exception as e:
+            out.append(('%s:exception:%s' % (name, type(e).__name__), repr(e)))
     return out
 
 
